@@ -430,6 +430,54 @@ fn run(ctx: &Ctx) -> Part {
     let mut acc = a.merge(b);
     acc.transitions = acc.evaluations;
     acc.traces = acc.evaluations;
+    // part C: a solid fill of more than 65535 bus words on the parallel transports (strobe-only loops that count in
+    // blocks) with one strobe / pin operation failing at various depths: nothing may follow the failure
+    {
+        let big: Vec<(Transport, u32, u32, u32)> = vec![(Transport::Par8, 40000, 1, 0x0000), (Transport::Par8, 35000, 1, 0x1234), (Transport::Par16, 40000, 2, 0xFFFF)];
+        let mut bjobs = Vec::new();
+        for &(tr, w, h, c) in &big {
+            for k in [5u64, 1000, 1001, 70_001, 131_073, 140_000, 159_998] {
+                bjobs.push((tr, w, h, c, k));
+            }
+        }
+        let c = bjobs
+            .par_iter()
+            .fold(Acc::new, |mut acc, &(tr, w, h, colour, k)| {
+                let cfg = Cfg::tiny(65535, 65535, false, tr, (65535, 65535, 0, 0), 0);
+                let op = Op::FillSolid { r: crate::dut::Rect { x: 0, y: 0, w, h }, c: colour };
+                let mut rig = Rig::new(&cfg);
+                let base = rig.ops();
+                rig.set_faults(&[Fault { at: base + k, mode: FaultMode::Unchanged }]);
+                let out = rig.apply(&op);
+                rig.set_faults(&[]);
+                let fired = rig.bd.borrow().failed_ops.len();
+                if fired == 0 {
+                    return acc; // the call has fewer operations than k
+                }
+                acc.evaluations += 1;
+                acc.nontrivial += 1;
+                acc.count("large_fill_faults", 1);
+                let after = rig.ops() - base - k - 1;
+                let bad = if !matches!(out, Outcome::Err(_)) {
+                    Some(("fill_solid(large)/wrong-error".to_string(), format!("outcome {out:?}")))
+                } else if after != 0 {
+                    Some(("fill_solid(large)/operations-after-failure".to_string(), format!("{after} further low-level operations after the failure")))
+                } else {
+                    None
+                };
+                if let Some((sig, m)) = bad {
+                    acc.violation(Violation {
+                        prop: ctx.prop.clone(),
+                        sig,
+                        msg: format!("{op:?} on {tr:?}, fault at operation index {k}: {m}"),
+                        case: json!({"kind": "c12-op", "variant": ctx.variant, "cfg": cfg, "prefix": Vec::<Op>::new(), "op": op, "k": k, "mode": FaultMode::Unchanged, "k2": null}),
+                    });
+                }
+                acc
+            })
+            .reduce(Acc::new, Acc::merge);
+        acc = acc.merge(c);
+    }
     acc.states = (init_cfgs.len() + jobs.len()) as u64;
     acc.n_outcomes = acc.counters.iter().filter(|(k, _)| k.starts_with("variant:")).count() as u64;
     acc.sample(json!({"cfg": init_cfgs[5], "operation": "Builder::init", "fault": {"at": 17, "mode": "Unchanged"}}));
